@@ -261,6 +261,10 @@ def _eval_both(model, zkind, rec, l, r):
                         out.append(('sound', '%s: parameters passed at the same position under different names must '
                                              'become positional-only, stored as %s' % (where, v.kind)))
                     conv = [p for p in prev if p[2].origin == ('OUT', proto.index_of_kind('POK')) and p[2].kind == 'PO']
+                    if conv and not [c_ for c_ in rec.clears if c_[1] == proto.index_of_kind('POK')] and \
+                            any(p[1] != proto.index_of_kind('POK') for p in conv):
+                        out.append(('exact', '%s: the earlier positional-or-keyword parameters are copied to the positional-only bucket but '
+                                             'also stay in the positional-or-keyword bucket (every name twice: invalid signature)' % where))
                     if not conv:
                         out.append(('exact', '%s: earlier positional-or-keyword parameters are not converted to '
                                              'positional-only (invalid parameter order)' % where))
@@ -422,6 +426,10 @@ def _eval_own(model, zkind, rec, own, existing, missing):
             else:
                 if want[1] == 'PO' and zkind == 'POK':
                     conv = [p for p in prev if p[2].origin == ('OUT', proto.index_of_kind('POK')) and p[2].kind == 'PO']
+                    if conv and not [c_ for c_ in rec.clears if c_[1] == proto.index_of_kind('POK')] and \
+                            any(p[1] != proto.index_of_kind('POK') for p in conv):
+                        out.append(('exact', '%s: the earlier positional-or-keyword parameters are copied to the positional-only bucket but '
+                                             'also stay in the positional-or-keyword bucket (every name twice: invalid signature)' % where))
                     if not conv:
                         out.append(('exact', '%s: earlier positional-or-keyword parameters are not converted to '
                                              'positional-only (invalid parameter order)' % where))
@@ -527,6 +535,7 @@ def rule_kwo_and_stars(check, model, rule, categories):
     n = 0
     # B1: matching loops
     found_single = set()
+    matched_seen = matched_put = False
     for kind, info, loop, outer in model.loops():
         if kind != 'single' or info.get('kind') != 'KWO':
             continue
@@ -547,6 +556,9 @@ def rule_kwo_and_stars(check, model, rule, categories):
                 puts = [c for c in rec.puts if c[1] == kwo]
                 limbo_adds = [c for c in rec.ces if c[0] == 'limbo_add' and c[1] == side]
                 if kk:
+                    matched_seen = True
+                    if puts:
+                        matched_put = True
                     # matched by name: conciled into the output, or left to the other side's loop
                     for c in puts:
                         v = c[2]
@@ -557,6 +569,9 @@ def rule_kwo_and_stars(check, model, rule, categories):
                             msgs.append(('sound', 'matched keyword-only parameter stored with kind %s' % v.kind))
                         if not v.conc:
                             msgs.append(('sound', 'matched keyword-only parameter stored without conciliation'))
+                        elif v.side == 'R':
+                            msgs.append(('exact', 'matched keyword-only parameter: the right operand\'s parameter is the base of the '
+                                                  'conciliation (the left operand must win)'))
                         recs = [s for s in rec.srcs if s[1] == ('A', el, 'name') or s[1] == c[5] if len(c) > 5]
                         got = set()
                         for s in rec.srcs:
@@ -582,6 +597,15 @@ def rule_kwo_and_stars(check, model, rule, categories):
             else:
                 check.holds(rule, site(model, node), 'keyword-only matching (%s side) conforms to table B1' % side, key=key,
                             guards=rec.text(), effect=_effects_text(rec))
+    # a keyword-only parameter both sides have must be stored (conciled) by one of the two matching loops
+    if 'sound' in categories or 'exact' in categories:
+        key = 'KWO-matched-stored'
+        if matched_seen and not matched_put:
+            check.violation(rule, site(model, model.f_iter.node), 'keyword-only matching: a parameter that both inputs declare keyword-only is stored '
+                            'by neither matching loop: it vanishes from the result, which then accepts calls without it although both inputs '
+                            'may require it', key=key, witness="merge(s('*, k'), s('*, k')) must be (*, k)")
+        elif matched_seen:
+            check.holds(rule, site(model, model.f_iter.node), 'a keyword-only parameter of both inputs is stored by a matching loop', key=key)
     if found_single != set(['L', 'R']):
         # the right-hand loop may legitimately be folded into the left one; fail closed
         if 'L' not in found_single:
@@ -664,6 +688,27 @@ def rule_kwo_and_stars(check, model, rule, categories):
                             msgs.append(('unknown' if v.unknown else 'sound', 'result %s parameter has kind %s (%s)'
                                          % (kind, v.kind, v.descr())))
                         else:
+                            a_all = rec.g(('all', kind))
+                            w0 = rec.g(('which', kind, 0))
+                            # a guard on the *other* family's bookkeeping list decides nothing about this star
+                            okind = 'VK' if kind == 'VP' else 'VP'
+                            if a_all is None and w0 is None and (rec.g(('all', okind)) is not None or rec.g(('which', okind, 0)) is not None) \
+                                    and _star_guard_family(model, rec, val) == okind:
+                                msgs.append(('exact', 'the surviving %s parameter is chosen by the bookkeeping list of the other star family'
+                                             % ('*args' if kind == 'VP' else '**kwargs')))
+                                msgs.append(('src', 'the surviving %s parameter is chosen by the bookkeeping list of the other star family'
+                                             % ('*args' if kind == 'VP' else '**kwargs')))
+                            if a_all is True:
+                                if not v.conc or v.side != 'L':
+                                    msgs.append(('exact', 'both inputs still offer their %s: the result must be the left one conciled with the '
+                                                          'right one, found %s' % (kind, v.descr())))
+                            elif a_all is False and w0 is not None:
+                                want = 'L' if w0 else 'R'
+                                if v.side != want or v.conc:
+                                    msgs.append(('exact', 'only the %s input\'s %s is left to name the result\'s, found %s'
+                                                 % ('left' if w0 else 'right', kind, v.descr())))
+                                    msgs.append(('src', 'only the %s input\'s %s is left to name the result\'s, found %s'
+                                                 % ('left' if w0 else 'right', kind, v.descr())))
                             recs = [s for s in rec.srcs if not s[5] and _src_names(model, s, v)]
                             got = set()
                             for s in recs:
@@ -689,6 +734,14 @@ def rule_kwo_and_stars(check, model, rule, categories):
             check.holds(rule, site(model, node), 'unmatched keyword-only handling and star retention conform to tables B5/B6',
                         key=key, guards=rec.text(), effect=_effects_text(PathRecTop(rec)))
     check.floor(rule, 'keyword-only and star paths', n, 20)
+
+
+def _star_guard_family(model, rec, val):
+    """family (VP/VK) of the bookkeeping list whose guards decide this path"""
+    for (k, pol) in rec.guards.items():
+        if k[0] in ('all', 'which'):
+            return k[1]
+    return None
 
 
 def _other_reason_to_raise(rec, side):
@@ -796,6 +849,9 @@ def concile_table(check, repo, rules):
                     elif dclass == 'none':
                         if eqdef is True:
                             msgs.append(('value', 'equal defaults replaced by None'))
+                        elif eqdef is None:
+                            msgs.append(('value', 'both operands have a default and the result gets None without the two being compared: '
+                                                  'equal defaults are lost (merge(s, s) differs from s)'))
                     else:
                         msgs.append(('unknown', 'default expression %s' % show(d)))
                 else:
@@ -853,6 +909,9 @@ def concile_table(check, repo, rules):
                         msgs.append(('annot', 'annotations differ but the result keeps one (%s)' % ac))
                     if eqann is None and ac != 'empty':
                         msgs.append(('annot', 'an annotation is kept without comparing the two'))
+                    if eqann is None and ac == 'empty':
+                        msgs.append(('annot', 'both operands are annotated and the result drops the annotation without the two being compared: '
+                                              'equal annotations are lost (merge(s, s) differs from s)'))
                 elif a and not b:
                     if ac != 'left':
                         msgs.append(('annot', 'only the left operand is annotated but the result has annotation class %s' % ac))
